@@ -39,9 +39,9 @@ func NewSolver(kind string, timeoutMs int) (*Solver, error) {
 	switch kind {
 	case "z3", "":
 		kind = "z3"
-		cmd = exec.Command("z3", "-in")
+		cmd = exec.Command("z3", "-in", fmt.Sprintf("-t:%d", timeoutMs))
 	case "z3-new":
-		cmd = exec.Command("z3-new", "-in")
+		cmd = exec.Command("z3-new", "-in", fmt.Sprintf("-t:%d", timeoutMs))
 	case "cvc5":
 		cmd = exec.Command("cvc5", "--incremental", "--lang=smt2", fmt.Sprintf("--tlimit-per=%d", timeoutMs))
 	default:
@@ -190,16 +190,28 @@ const (
 
 func (r SatResult) String() string { return [...]string{"unsat", "sat", "unknown"}[r] }
 
+// solverDead is raised when the solver had to be killed (hard timeout) or died.
+type solverDead struct{ msg string }
+
 func (s *Solver) Check() SatResult {
 	s.send("(check-sat)")
 	s.flush()
 	start := time.Now()
 	s.stats.Queries++
 	res := Unknown
+	// hard watchdog: the soft timeout is not always honoured in incremental mode
+	timer := time.AfterFunc(time.Duration(s.timeout)*time.Millisecond+5*time.Second, func() {
+		if s.cmd != nil && s.cmd.Process != nil {
+			s.cmd.Process.Kill()
+		}
+	})
+	defer timer.Stop()
 	for {
 		line, err := s.out.ReadString('\n')
 		if err != nil {
-			panic(fmt.Sprintf("solver read: %v", err))
+			s.stats.Unknown++
+			s.stats.Time += time.Since(start)
+			panic(solverDead{fmt.Sprintf("solver killed after hard timeout or died: %v", err)})
 		}
 		line = strings.TrimSpace(line)
 		if line == "" {
